@@ -208,6 +208,22 @@ def main():
                 out.write('REENC %s %s\n' % (cid, bytes(b2.data).hex()))
             except Exception as e:
                 out.write('REENCERR %s %s\n' % (cid, _err(e)))
+        elif parts[0] == 'R':
+            cid = parts[1]
+            a = b'' if parts[2] == '-' else bytes.fromhex(parts[2])
+            b = b'' if parts[3] == '-' else bytes.fromhex(parts[3])
+            out.write('BEGIN R %s\n' % cid); out.flush()
+            obj = ROOT()
+            try:
+                obj.decode(ByteBuf(a))
+            except Exception as e:
+                pass
+            try:
+                buf = ByteBuf(b)
+                obj.decode(buf)
+                out.write('DEC %s %d %s\n' % (cid, len(buf.data) - buf.read_index, DUMP_ROOT(obj)))
+            except Exception as e:
+                out.write('DECERR %s %s\n' % (cid, _err(e)))
         out.flush()
     out.write('TRACE ' + json.dumps(dict(vtrace.COUNTS)) + '\n')
     out.write('DONE\n')
